@@ -24,6 +24,29 @@ family, a bare token list.  The harness
        real lexer produces exactly that list (D, signature layout-changes-tokens), so the two are the same
        stream whenever no failure is reported.
 
+  TEXT level (K, every case of every family): the driver also gets the LAYOUT (the separator before the first token
+       and after every token), rebuilds the text and runs the composed model `parseText` = lexer model (tables
+       generated from oal.py) + token conversion + parser model on it — the function `text_roundtrip` (Props/C07.lean) is
+       about (`driver_text_parser`).  Compared: the lexer model's tokens with the real lexer's, and `parseText text` with
+       `oal.parse(text)` (same tree or both reject).  The driver also decides, in Lean, whether the text lies in the PROVED
+       domain (`inDomain`: every lexeme passes the Boolean `Well…` checks, every separator is layout, an empty one only
+       where `tightOk` allows; sound: `driver_domain_sound`); counted per family (`domain_in`, `domain_out_lexemes`,
+       `domain_out_layout`, each split into lexed-as-written / lexed-differently = how conservative the side conditions
+       are); inside the domain the theorem's own prediction (lexed exactly as written, parsed to the written tree) is
+       asserted (THEOREM-VIOLATED otherwise).
+  family `seq` (docs/robustness-patterns.md 1, 2, 7): 3-5 texts through ONE lexer object, the worker's ONE OALParser and
+       `oal.parse`, one after the other: A B A (the same text again after another one), rejected texts (damaged
+       programs, operator soups) followed by accepted ones, two texts that differ in exactly one name's case / one blank
+       inside a string / one digit (must give different trees), the same tree in two layouts around a rejected text.
+       D: every text with a known tree parses to it whatever came before; both routes agree; a repeated text gives
+       the same result; near-duplicates give different trees.  K: lexer model / parseText on every text.
+  family `lexedge` (K only, no oracle): hand-written lexical edge cases (identifier `end`, `end  if` with unusual white
+       space and glued neighbours, digits followed by letters / dots / signs, `/` next to comments, `%` next to `*` `/`,
+       glued operators, keywords glued to names, odd strings, characters outside the alphabet, empty inputs, missing final
+       newline / semicolon, huge literals) and all ordered pairs of 47 representative lexemes written WITHOUT a separator
+       (bare and inside `x = u v ;`) — measures `LexemesOk` / `tightOk` and cross-checks the harness's own `tight_ok`
+       against Lean's (`tight_py_*_lean_*`).
+
 The parser tables are rebuilt from the grammar text of the workspace copy: setup() removes the editable
 install's import finder, which would otherwise hand PLY the generated tables of /repo (PLY with optimize=1
 accepts them without a signature check).  One OALParser is reused for the bulk of the cases; every 20th case
@@ -40,7 +63,10 @@ RULE = ('exhaustive expression trees with up to three levels of operators over t
         'random expression trees to depth 8; random statement trees over every statement production with random '
         'layout, comments and optional-word choices; the same with keywords used as names wherever the grammar allows '
         '(variables also at the start of a statement, attributes, operation/function/parameter/event/class/relationship '
-        'names, phrases written as identifiers); operator/parenthesis soups (malformed family, K only). '
+        'names, phrases written as identifiers); operator/parenthesis soups (malformed family, K only); sequences of texts '
+        'in one process (same text twice around another, rejected then accepted, near-duplicates); lexical edge-case texts '
+        'and all ordered pairs of 47 representative lexemes written tight (K only). Every text of every family is also run '
+        'through the composed text-level model (lexer model + parser model) and compared with oal.parse. '
         'Non-trivial: at least two operators, or a statement with an optional word / nested block; distinct = distinct text')
 EXHAUSTIVE = {'quick': True, 'thorough': True}
 ASSUMPTIONS = [
@@ -74,12 +100,14 @@ _parser = None
 _lexer = None
 _TABLE = None       # token name -> (level, assoc) from the workspace's `precedence`
 _ULEVEL = None
+_CTX = None
 
 
 # ------------------------------------------------------------------------------------------ setup
 
 def setup(ctx):
-    global _oal, _parser, _lexer, _TABLE, _ULEVEL
+    global _oal, _parser, _lexer, _TABLE, _ULEVEL, _CTX
+    _CTX = ctx          # model_obs runs in the parent: the domain statistics of the driver are counted there
     import sys
     # PLY (optimize=1) imports `bridgepoint.__oal_parsetab` / `__oal_lextab` and uses them WITHOUT a signature
     # check.  The workspace copy has no such files, but the editable install of /repo registers a meta-path
@@ -466,7 +494,7 @@ _WS = [' ', '  ', '\t', '\n', '\r\n', ' \n ', '\n\n', ' \t ']
 _COMMENTS = ['/* c */', '/**/', '/* a\n b */', '/* ** / */', '/* "x" \'y\' */', '/*x = 1;*/', '// line\n', '//\n',
              '// if then end if; /* \n', '/* // */', '/***/', '/****/', '/******/', '/* section **/', '/*** x ***/',
              '/**\n * doc\n **/', '/* a * b ** c *** d ****/', '/*/ x */', '/* x = 1; **/', '/***\n***/', '// **/ x\n']
-_INNER = [' ', '  ', '\t', '\n', ' \n\t', '\r\n']
+_INNER = [' ', '  ', '\t', '\n', ' \n\t', '\r\n', '   ', '\t\t', '\n\n', '\x0c', ' \x0b ', '\x1f', '\u00a0', '\u2003 ']
 _CBODY = ['c', 'x = 1;', ' ', '  ', '\n', '\n * ', '*', '**', '***', ' * ', '/', ' / ', '//', '/ *', '* /', '"s"', "'p'",
           'end if', 'return y;', '-', '->', '::', 'a*b', '*x', 'x*', '\t', '\r\n', '(', ')', ';']
 
@@ -526,27 +554,33 @@ def tight_ok(k, lx, nlx):
 
 
 def layout(toks, rng, mode):
-    """tokens -> (text, tokens as they should be lexed).  mode 0: single spaces; 1: random white space;
+    """tokens -> (text, tokens as they should be lexed); see layout3"""
+    text, want, _ = layout3(toks, rng, mode)
+    return text, want
+
+
+def layout3(toks, rng, mode):
+    """tokens -> (text, tokens as they should be lexed, [sep0, gap after token 1, ..., gap after token N]) with
+    text = sep0 + lexeme1 + gap1 + ... + lexemeN + gapN.  mode 0: single spaces; 1: random white space;
     2: random white space, some comments, tight brackets; 3: a comment in (nearly) every gap, glued to the
     token before it, to the token after it, or to both, often several comments and statements on one line;
     4: NOTHING between two tokens wherever `tight_ok` allows (`a+b`, `x=1;`, `a->B[R1]`, `f(p:1)`), one white-space
     string elsewhere; 5: as 2, but every gap that `tight_ok` allows is left empty with probability 0.6"""
-    out = []
     want = []
     n = len(toks)
+    gaps = [''] * n
     for i, (k, lx) in enumerate(toks):
         if k in ('END_IF', 'END_FOR', 'END_WHILE') and mode:
             a, b = lx.split()
             lx = a + rng.choice(_INNER) + b
         want.append((k, lx))
-        out.append(lx)
         if i + 1 == n:
             break
         nk = toks[i + 1][0]
         if k == 'NAMESPACE' and nk == 'DOUBLECOLON':
             continue
         if mode == 0:
-            out.append(' ')
+            gaps[i] = ' '
             continue
         if mode == 2 and (k in _TIGHT or nk in _TIGHT) and rng.random() < 0.5:
             continue
@@ -557,11 +591,11 @@ def layout(toks, rng, mode):
             if tight_ok(k, lx, nlx) and (mode == 4 or rng.random() < 0.6):
                 continue
             if mode == 4:
-                out.append(rng.choice(_WS))
+                gaps[i] = rng.choice(_WS)
                 continue
         if mode == 3:
             if rng.random() < 0.15:
-                out.append(' ')
+                gaps[i] = ' '
                 continue
             c = comment(rng)
             if rng.random() < 0.2:
@@ -569,7 +603,7 @@ def layout(toks, rng, mode):
             glue = rng.randrange(4)          # 0: ' c ', 1: 'c ', 2: ' c', 3: 'c'
             before = '' if (glue in (1, 3) and not lx.endswith('/')) else ' '
             after = '' if glue in (2, 3) else ' '
-            out.append(before + c + after)
+            gaps[i] = before + c + after
             continue
         parts = [rng.choice(_WS)]
         if mode in (2, 5):
@@ -582,24 +616,25 @@ def layout(toks, rng, mode):
                     parts.pop(0)          # the comment directly after the token
             elif r < 0.3:
                 parts += [comment(rng), rng.choice(_WS), comment(rng)]
-        out.append(''.join(parts))
-    text = ''.join(out)
+        gaps[i] = ''.join(parts)
+    sep0 = ''
     if mode >= 2 and rng.random() < 0.3:
-        text = rng.choice(_WS + [comment(rng)]) + text
-    if mode >= 2 and rng.random() < 0.3:
-        text = text + rng.choice(_WS + [comment(rng)])
-    return text, want
+        sep0 = rng.choice(_WS + [comment(rng)])
+    if mode >= 2 and rng.random() < 0.3 and n:
+        gaps[n - 1] = rng.choice(_WS + [comment(rng)])
+    text = sep0 + ''.join(lx + g for (_, lx), g in zip(want, gaps))
+    return text, want, [sep0] + gaps
 
 
 # ------------------------------------------------------------------------------------------ generators of trees
 
-NAMES = ['x', 'y', 'cnt', 'inst_1', '_v', 'A1', 'dog', 'i', 'total', 'Z9', 'o', 'arr']
+NAMES = ['x', 'y', 'cnt', 'inst_1', '_v', 'A1', 'dog', 'i', 'total', 'Z9', 'o', 'arr', 'X', 'Cnt', 'a1', 'DOG']
 KLS = ['K', 'A', 'Dog', 'X_Y', 'B2']
 RELS = ['R1', 'R22', 'R3']
 NSS = ['NS', 'LOG', 'ARCH', 'T1', 'e_2']
 FNS = ['f', 'g', 'LogInfo', 'op', 'm_1']
 PHRASES = ["'is owned by'", "'owns'", "''", "'a.b'", "'x\ny'", "'/* no */'"]
-INTS = ['0', '1', '42', '007']
+INTS = ['0', '1', '42', '007', '2147483648', '9007199254740993', '18446744073709551616']
 REALS = ['1.5', '.5', '2.', '3.25', '10.0', '1e5', '2.E3', '7.5f']
 STRS = ['""', '"hi"', '"a b"', '"/* c */"', '"// d"', '"it\'s"', '"x=1;"']
 
@@ -1074,6 +1109,218 @@ def flat(e, r):
     return t
 
 
+# ------------------------------------------------------------------------------------------ several texts, one process
+
+def gen_seq(ctx, n):
+    """docs/robustness-patterns.md 1, 2, 7: several texts through the SAME parser object (and through `oal.parse`)
+    one after the other — the same text twice with another one in between, rejected texts followed by accepted
+    ones, texts that differ in exactly one respect (the case of one name, a blank inside a string, one digit)"""
+    for i in range(n):
+        yield {'fam': 'seq', 'seed': i, 'shape': i % 4}
+
+
+def _near_duplicate(toks, r):
+    """the same tokens with ONE changed in a way that must change the tree; None when there is no such token"""
+    cands = []
+    for i, (k, lx) in enumerate(toks):
+        if k == 'ID' and lx.swapcase() != lx and lx.swapcase().upper() not in ALLKW:
+            cands.append((i, (k, lx.swapcase())))
+        elif k == 'STRING' and ' ' in lx:
+            cands.append((i, (k, lx.replace(' ', '  ', 1))))
+        elif k == 'STRING' and len(lx) > 2:
+            cands.append((i, (k, lx[:-1] + ' "')))
+        elif k == 'NUMBER':
+            cands.append((i, (k, lx + '0')))
+    if not cands:
+        return None
+    i, t = r.choice(cands)
+    return toks[:i] + [t] + toks[i + 1:]
+
+
+def seq_items(case):
+    """-> [(text, tree or None, tag)]; tag: 'good' (tree known), 'same:<j>' (the text of item j again),
+    'near:<j>' (differs from item j in one name / string / number), 'bad' (damaged, no oracle)"""
+    import common
+    r = common.Prng(case['seed']).fork('seq')
+    items = []
+
+    def good(tag='good'):
+        blk = rand_block(r, r.choice([1, 2]), r.choice([1, 2]))
+        toks = p_block(blk)
+        text, _ = layout(toks, r.fork('lay', len(items)), r.choice([0, 1, 2, 3, 4, 5]))
+        items.append((text, blk, tag))
+        return toks, blk
+
+    def bad():
+        x = r.random()
+        if x < 0.4:
+            toks = soup_tokens(r.fork('soup', len(items)))
+        else:
+            toks = p_block(rand_block(r, 1, r.choice([1, 2])))
+            if x < 0.7 and len(toks) > 1:
+                del toks[r.randrange(len(toks))]             # one token missing
+            elif x < 0.85:
+                toks = toks[:max(1, len(toks) // 2)]           # cut in the middle
+            else:
+                toks.insert(r.randrange(len(toks) + 1), r.choice([('RPAREN', ')'), ('EQUAL', '='), ('ELSE', 'else')]))
+        text, _ = layout(toks, r.fork('lay', len(items)), r.choice([0, 1, 4]))
+        items.append((text, None, 'bad'))
+
+    shape = case.get('shape', 0)
+    if shape == 0:                       # A B A (B A)
+        good()
+        good()
+        items.append((items[0][0], items[0][1], 'same:0'))
+        if r.random() < 0.5:
+            items.append((items[1][0], items[1][1], 'same:1'))
+    elif shape == 1:                     # rejected texts, then accepted ones, on the same objects
+        bad()
+        good()
+        bad()
+        items.append((items[1][0], items[1][1], 'same:1'))
+        good()
+    elif shape == 2:                     # two of a kind: one token differs
+        toks, blk = good()
+        near = _near_duplicate(toks, r)
+        if near is not None:
+            text, _ = layout(near, r.fork('lay', 'near'), r.choice([0, 1, 4]))
+            items.append((text, None, 'near:0'))
+        items.append((items[0][0], items[0][1], 'same:0'))
+    else:                                # the same tree in two layouts around a rejected text
+        toks, blk = good()
+        bad()
+        text, _ = layout(toks, r.fork('lay', 'again'), r.choice([0, 3, 4, 5]))
+        items.append((text, blk, 'good'))
+        items.append(('  ' + items[0][0] + ' \n', blk, 'good'))
+    return items
+
+
+def run_seq(case):
+    items = seq_items(case)
+    fails = []
+    lx = _lexer.clone()                  # ONE lexer object for all the texts of the case
+    toks_l = [_ply_tokens(t, lx) for t, _, _ in items]
+    res_p = [_ply_tree(t, False) for t, _, _ in items]        # the worker's one OALParser, text after text
+    res_f = [_ply_tree(t, True) for t, _, _ in items]         # `oal.parse`, text after text
+    for j, ((text, tree, tag), (tp, fp), (tf, ff)) in enumerate(zip(items, res_p, res_f)):
+        for f in (fp, ff):
+            if f:
+                fails.append(f)
+        if tp != tf:
+            fails.append({'sig': 'seq-route-differs', 'what': 'text %d %r of a sequence: the reused OALParser gives %s, '
+                          'oal.parse gives %s' % (j, text, dumps(tp), dumps(tf))})
+        if tree is not None and tp != y_body(tree):
+            fails.append({'sig': 'seq-roundtrip', 'what': 'text %d %r parsed after %d other texts in the same process gives %s, '
+                          'the tree that was written is %s' % (j, text, j, dumps(tp), dumps(y_body(tree)))})
+        if tag.startswith('same:'):
+            k = int(tag[5:])
+            if tp != res_p[k][0] or toks_l[j] != toks_l[k]:
+                fails.append({'sig': 'seq-repeat-differs', 'what': 'the same text %r parsed twice with other texts in '
+                              'between: first %s, then %s' % (text, dumps(res_p[k][0]), dumps(tp))})
+        if tag.startswith('near:'):
+            k = int(tag[5:])
+            if tp == res_p[k][0]:
+                fails.append({'sig': 'seq-collision', 'what': 'texts %r and %r differ in a name / string / number, both '
+                              'parse to %s' % (items[k][0], text, dumps(tp))})
+    stats = {'cases_seq': 1, 'seq_texts': len(items), 'seq_shape_%d' % case.get('shape', 0): 1,
+             'seq_rejected': sum(1 for t, _ in res_p if t == S('ParseException')),
+             'seq_accepted_after_rejected': sum(
+                 1 for j, (t, _) in enumerate(res_p)
+                 if t != S('ParseException') and any(u == S('ParseException') for u, _ in res_p[:j]))}
+    return {'obs': [[[[S(k), l] for k, l in tl], tp] for tl, (tp, _) in zip(toks_l, res_p)], 'd_fail': fails[:2],
+            'nontrivial': len(items) >= 3, 'key': '\x00'.join(t for t, _, _ in items), 'stats': stats}
+
+
+# ------------------------------------------------------------------------------------------ lexical edge cases
+
+_LITKIND = {'==': 'DOUBLEEQUAL', '!=': 'NOTEQUAL', '<=': 'LE', '>=': 'GE', '->': 'ARROW', '::': 'DOUBLECOLON',
+            '<': 'LESSTHAN', '>': 'GT', '=': 'EQUAL', '+': 'PLUS', '-': 'MINUS', '*': 'TIMES', '/': 'DIV', '%': 'MOD',
+            '|': 'PIPE', '&': 'AMP', '^': 'CARET', '(': 'LPAREN', ')': 'RPAREN', '[': 'LSQBR', ']': 'RSQBR',
+            ',': 'COMMA', ';': 'SEMICOLON', ':': 'COLON', '.': 'DOT', '?': 'QMARK'}
+_REPS = [('ID', 'a'), ('ID', 'x1'), ('ID', 'end'), ('ID', 'e'), ('ID', '_f'), ('NUMBER', '1'), ('NUMBER', '42'),
+         ('FRACTION', '1.5'), ('FRACTION', '2.'), ('FRACTION', '.5'), ('FRACTION', '1e5'), ('FRACTION', '7.5f'),
+         ('STRING', '"s"'), ('TICKED_PHRASE', "'p'"), ('END_IF', 'end if'), ('END_FOR', 'end  for'), ('AND', 'and'),
+         ('NOT', 'not'), ('NOT_EMPTY', 'not_empty'), ('SELF', 'self'), ('IF', 'if')] + [(k, l) for l, k in _LITKIND.items()]
+
+# texts written by hand: K only (lexer model + parseText against the real lexer + parser), no oracle
+_EDGE_TEXTS = [
+    # the identifier `end` (outside LexemesOk: `end` + white space + if|for|while is ONE token)
+    'x = end;', 'end = 1;', 'x = end + 1;', 'x = end.y;', 'x = END;', 'x = end1;', 'x = endif;', 'x = end_if;',
+    'if (a) end = 1; end if;', 'x = end\nif;', 'return end;', 'select any end from instances of K;', 'end.x = end [ 1 ];',
+    # `end if` and friends: repeated and unusual white space between the words, glued neighbours
+    'if a break; end if;', 'if a break; end  if;', 'if a break; end\tif;', 'if a break; end\nif;', 'if a break; END IF;',
+    'if a break; End   If;', 'if a break; end\x0cif;', 'if a break; end\u00a0if;', 'if a break; endif;',
+    'if a break; end if;x = 1;', 'if a break; end ifx = 1;', 'if a break; end iffy;', 'if a break;end if;',
+    'while a break; end \r\n while;', 'for each x in xs break; end\n\n\tfor;', 'if a break; end /* c */ if;',
+    'if a break; end if', 'while a break; end  for;', 'if a break; end if; end if;',
+    # numbers followed by letters, dots and signs
+    'x = 1x;', 'x = 1e5;', 'x = 1e;', 'x = 1f;', 'x = 1.5f;', 'x = 1.5F;', 'x = 1.5l;', 'x = 1.e;', 'x = 1..2;',
+    'x = 1.x;', 'x=.5;', 'x = a.5;', 'x = 1and 2;', 'x = 1 and2;', 'x = 12abc::f();', 'x = 1::a;', 'x = 1e+5;',
+    'x = 1e-5;', 'x = 1e+;', 'x = 1.5e3;', 'x = 1.5+2;', 'x = 2.+3;', 'x = 1.-1;', 'x = 007;', 'x = 0x1F;',
+    'x = 18446744073709551616;', 'x = 9007199254740993.0;', 'x = 1e400;', 'x = -1;', 'x = - 1;', 'x = --1;',
+    'x = \u0661\u0662;', 'x = 1\u0662;',
+    # `/` next to comments, `%` next to `*` and `/`
+    'x = a / /* c */ b;', 'x = a //* c */ b;\nx = 1;', 'x = a /* c */ / b;', 'x = a /2;', 'x = a//c\n/b;', 'x = a/b/c;',
+    'x = a/*b;', 'x = a / * b */ c;', 'x = a /**/ b;', 'x = a/**// b;', 'x = a /***/ * b;', 'x = a /* * / */ b;',
+    'x = a // b', 'x = a; // no newline at the end', 'x = a; /* not closed', 'x = a; /*/ b;', '/**/x/**/=/**/1/**/;/**/',
+    'x = a % b * c;', 'x = a * b % c;', 'x = a / b % c;', 'x = a % b / c;', 'x = a%b%c;', 'x = a%-b;', 'x = a*-b%c;',
+    # operators glued to one another
+    'x = a<-b;', 'x = a- -b;', 'x = a--b;', 'x = a-->b;', 'x = a->b;', 'x = a<=-1;', 'x = a== -1;', 'x=-1;', 'x = a!=b;',
+    'x = a! =b;', 'x = a<>b;', 'x = a=>b;', 'x = a= =b;', 'x = a===b;', 'x = a::b;', 'x = a:: b;', 'x = a ::b();',
+    'x = NS ::f();', 'x = NS:: f();', 'x = NS::f ();', 'x = f(p:::g());', 'x = ::f(p : 1);', 'x = ::f(p:1,q:2);',
+    'x .y = 1;', 'x. y = 1;', 'x..y = 1;', 'x = a<b<c;', 'x = a<(b<c);', 'x = not-a;', 'x = a+-b;', 'x = a|b&c^d;',
+    'select many ys related by self->K[R1]->L[R2.\'p\'];', 'select many ys related by self - > K[R1];',
+    # keywords glued to names
+    'x = notx;', 'x = not_emptyx;', 'x = not empty x;', 'x = not_ empty x;', 'x = selfx;', 'x = self.x;', 'x = param.x;',
+    'x = paramx;', 'x = rcvd_evt.x;', 'x = cardinalityx;', 'x = aand b;', 'x = a orb;', 'returnx;', 'return;', 'returnx = 1;',
+    # strings and phrases
+    'x = "a"b";', 'x = "a\nb";', 'x = "";', 'x = """";', 'x = "it\'s";', "relate a to b across R1.'x''y';",
+    "relate a to b across R1.'';", "relate a to b across R1.'a\nb';", 'x = ";', "x = ';", 'x = "/* c */" + "// d";',
+    # characters that are not in the alphabet, form feed / vertical tab between tokens
+    'x = 1 @ 2;', 'x = a $ b;', 'x = 1 \\ 2;', 'x = `a`;', 'x = ~a;', 'x = #a;', 'x = {a};', 'x\x0c=\x0c1;', 'x\x0b= 1;',
+    '\u00e9 = 1;', 'x = "\u00e9";', 'x\u00a0= 1;', '\ufeffx = 1;', 'x = a ? b;',
+    # empty and nearly empty inputs, missing final newline / semicolon
+    '', ' ', '\n', ';', ';;', ' ; ; ', '// c', '// c\n', '/* c */', '/* not closed', 'x = 1', 'x', '=', 'x = 1;;', ';x = 1;',
+    'x = 1;\r\n', 'x = 1;\r', '\tx\t=\t1\t;\t',
+]
+
+
+def gen_lexedge(ctx):
+    """lexical edge cases (K only): hand-written texts, and every ordered pair of representative lexemes written
+    without a separator — measures where `LexemesOk` / `tightOk` (and the harness's `tight_ok`) are conservative"""
+    for i, t in enumerate(_EDGE_TEXTS):
+        yield {'fam': 'lexedge', 'text': t, 'i': i}
+    n = 0
+    for u in _REPS:
+        for v in _REPS:
+            n += 1
+            yield {'fam': 'lexedge', 'toks': [list(u), list(v)], 'lay': ['', '', ''], 'i': n}
+    # the same pairs inside a statement, so that some of them parse:  x = u v ;
+    for u in _REPS:
+        for v in _REPS:
+            n += 1
+            if n % 3 == ctx.seed % 3:
+                yield {'fam': 'lexedge', 'toks': [['ID', 'x'], ['EQUAL', '='], list(u), list(v), ['SEMICOLON', ';']],
+                       'lay': ['', ' ', ' ', '', ' ', ''], 'i': n}
+
+
+def run_lexedge(case):
+    if 'text' in case:
+        text = case['text']
+        written = None
+    else:
+        written = [tuple(t) for t in case['toks']]
+        lay = case['lay']
+        text = lay[0] + ''.join(lx + g for (_, lx), g in zip(written, lay[1:]))
+    got = _ply_tokens(text)
+    tree, f = _ply_tree(text, case.get('i', 0) % 2 == 0)
+    stats = {'cases_lexedge': 1, 'lexedge_' + ('rejected' if tree == S('ParseException') else 'parsed'): 1}
+    if written is not None:
+        stats['lexedge_pair_' + ('lexed_as_written' if got == written else 'lexed_differently')] = 1
+    return {'obs': [S('n/a'), S('n/a'), [[S(k), l] for k, l in got], tree], 'd_fail': [f] if f else [],
+            'nontrivial': True, 'key': 'lexedge:' + text, 'stats': stats}
+
+
 def generate(ctx):
     for c in gen_spec(ctx):
         yield c
@@ -1089,6 +1336,10 @@ def generate(ctx):
         yield c
     for c in gen_soup(ctx, ctx.pick(3000, 30000)):
         yield c
+    for c in gen_seq(ctx, ctx.pick(400, 6000)):
+        yield c
+    for c in gen_lexedge(ctx):
+        yield c
 
 
 def search(ctx, broken):
@@ -1102,6 +1353,10 @@ def search(ctx, broken):
     for c in gen_random_stmt(ctx, 20000):
         yield c
     for c in gen_random_expr(ctx, 20000):
+        yield c
+    for c in gen_seq(ctx, 3000):
+        yield c
+    for c in gen_lexedge(ctx):
         yield c
 
 
@@ -1136,8 +1391,38 @@ def _norm_tok(k, lx):
     return [S(k), lx]
 
 
+def _ply_tokens(text, lx=None):
+    lx = lx or _lexer.clone()
+    lx.input(text + '\n')
+    got = []
+    while True:
+        t = lx.token()
+        if t is None:
+            break
+        got.append((t.type, t.value))
+    return got
+
+
+def _ply_tree(text, via_parse):
+    """-> (encoded tree | ParseException | (parser-raised X), failure or None)"""
+    from oal_sexp import encode
+    try:
+        root = _oal.parse(text) if (via_parse or _parser is None) else _parser.text_input(text + '\n')
+    except _oal.ParseException:
+        return S('ParseException'), None
+    except Exception as e:      # not a syntax error of the text: the parser itself is unusable
+        return [S('parser-raised'), type(e).__name__], {
+            'sig': 'parser-raised-%s' % type(e).__name__,
+            'what': 'oal.parse(%r) raised %s: %s' % (text, type(e).__name__, str(e)[:200])}
+    return encode(root), None
+
+
 def run_impl(case):
     from oal_sexp import encode
+    if case['fam'] == 'seq':
+        return run_seq(case)
+    if case['fam'] == 'lexedge':
+        return run_lexedge(case)
     toks, tree, must_reject, _ = build(case)
     text, want = layout(toks, _prng(case), case.get('mode', 0))
     fails = []
@@ -1186,8 +1471,9 @@ def run_impl(case):
     if case['fam'] in ('rstmt',):
         for s in loads(case['tree']):
             stats['stmt_' + str(s[0])] = stats.get('stmt_' + str(s[0]), 0) + 1
-    return {'obs': [[_norm_tok(k, l) for k, l in got], obs_tree], 'd_fail': fails[:2],
-            'nontrivial': nops >= 2 or compound, 'key': text, 'stats': stats}
+    # components 3 and 4: what the TEXT gives (K: the lexer model and `parseText` of the driver on the same text)
+    return {'obs': [[_norm_tok(k, l) for k, l in got], obs_tree, [[S(k), l] for k, l in got], obs_tree],
+            'd_fail': fails[:2], 'nontrivial': nops >= 2 or compound, 'key': text, 'stats': stats}
 
 
 _memo = {}
@@ -1200,22 +1486,77 @@ def _built(case):
     if hit is not None and hit[0] is case:
         return hit[1]
     toks, tree, _, cmp_print = build(case)
-    _, want = layout(toks, _prng(case), case.get('mode', 0))
+    _, want, lay = layout3(toks, _prng(case), case.get('mode', 0))
     if len(_memo) > 3 * CHUNK:
         _memo.clear()
-    _memo[k] = (case, (toks, tree, cmp_print, want))
-    return toks, tree, cmp_print, want
+    _memo[k] = (case, (toks, tree, cmp_print, want, lay))
+    return toks, tree, cmp_print, want, lay
 
 
 def model_line(case):
-    toks, tree, cmp_print, want = _built(case)
+    if case['fam'] == 'seq':
+        return dumps([S('c07t')] + [t for t, _, _ in seq_items(case)])
+    if case['fam'] == 'lexedge':
+        if 'text' in case:
+            return dumps([S('c07t'), case['text']])
+        return dumps([S('c07'), NONE, [S('lay')] + list(case['lay'])] + [[S(k), l] for k, l in case['toks']])
+    toks, tree, cmp_print, want, lay = _built(case)
     tree_s = tree if (tree is not None and cmp_print) else NONE
-    return dumps([S('c07'), tree_s] + [[S(k), l] for k, l in want])
+    return dumps([S('c07'), tree_s, [S('lay')] + lay] + [[S(k), l] for k, l in want])
+
+
+def _model_tree(parsed):
+    if isinstance(parsed, list) and parsed and parsed[0] == 'parsed':
+        try:
+            return y_body(parsed[1])
+        except Exception as e:     # undecodable model answer
+            return [S('undecodable'), str(e)]
+    return S('ParseException') if parsed == 'error' else [S('model-error'), parsed]
+
+
+def _model_lexed(lexed):
+    if isinstance(lexed, list) and lexed and lexed[0] == 'lexed':
+        return [[S(str(t[0])), t[1]] for t in lexed[1:]]
+    return [S('model-lex-failed'), lexed]
+
+
+def _count(key, n=1):
+    if _CTX is not None:
+        _CTX.count(key, n)
+
+
+def _domain(case, dom):
+    """the driver's `inDomain` flags (the hypotheses of text_roundtrip / driver_domain_sound, decided in Lean):
+    count where the generated text lies; -> False when the theorem's own prediction fails"""
+    lexok, layok, same = [str(x) == 'T' for x in dom[1:4]]
+    fam = case['fam']
+    if lexok and layok:
+        _count('domain_in')
+        _count('domain_in_' + fam)
+        return same
+    why = 'lexemes' if not lexok else 'layout'
+    _count('domain_out_%s' % why)
+    _count('domain_out_%s_%s' % (why, fam))
+    _count('domain_out_%s_%s' % (why, 'but_lexed_as_written' if same else 'and_lexed_differently'))
+    return True
 
 
 def model_obs(case, ans):
-    toks, tree, cmp_print, want = _built(case)
-    printed, parsed = ans
+    if case['fam'] == 'seq':
+        return [[_model_lexed(a[0]), _model_tree(a[1])] for a in ans]
+    if case['fam'] == 'lexedge':
+        if 'text' in case:
+            return [S('n/a'), S('n/a'), _model_lexed(ans[0][0]), _model_tree(ans[0][1])]
+        ok = _domain(case, ans[4])
+        py = all(g != '' or tight_ok(k, lx, case['toks'][i + 1][1])
+                 for i, ((k, lx), g) in enumerate(list(zip(case['toks'], case['lay'][1:]))[:-1]))
+        if str(ans[4][1]) == 'T':
+            _count('tight_py_%s_lean_%s' % ('accepts' if py else 'refuses', 'accepts' if str(ans[4][2]) == 'T' else 'refuses'))
+        lexed = [[S(k), l] for k, l in case['toks']] if ans[2] == '=' else _model_lexed(ans[2])
+        return [S('n/a'), S('n/a'), lexed if ok else [S('THEOREM-VIOLATED: in the domain, lexed differently')],
+                _model_tree(ans[1] if ans[3] == '=' else ans[3])]
+    toks, tree, cmp_print, want, lay = _built(case)
+    printed, parsed = ans[0], ans[1]
     if printed == NONE:
         ptoks = [_norm_tok(k, l) for k, l in want]
     elif isinstance(printed, list) and printed and printed[0] == 'printed':
@@ -1225,14 +1566,26 @@ def model_obs(case, ans):
     if isinstance(parsed, list) and parsed and parsed[0] == 'parsed':
         blk = parsed[1]
         if tree is not None and case['fam'] != 'spec' and blk != tree:
-            return [ptoks, [S('model-parse-loses-the-tree'), blk]]
+            return [ptoks, [S('model-parse-loses-the-tree'), blk], S('n/a'), S('n/a')]
         try:
             ptree = y_body(blk)
         except Exception as e:     # undecodable model answer
             ptree = [S('undecodable'), str(e)]
     else:
         ptree = S('ParseException') if parsed == 'error' else [S('model-error'), parsed]
-    return [ptoks, ptree]
+    # TEXT level: `=` abbreviates "the lexer model returned the written tokens" / "hence the same parse"
+    ok = _domain(case, ans[4])
+    lexed = [[S(k), l] for k, l in want] if ans[2] == '=' else _model_lexed(ans[2])
+    if not ok:
+        lexed = [S('THEOREM-VIOLATED: in the domain, lexed differently')]
+    if ans[3] == '=':
+        ttree = ptree
+    else:
+        ttree = _model_tree(ans[3])
+        if isinstance(ans[3], list) and ans[3] and ans[3][0] == 'parsed' and tree is not None and case['fam'] != 'spec' \
+                and str(ans[4][1]) == 'T' and str(ans[4][2]) == 'T' and ans[3][1] != tree:
+            ttree = [S('THEOREM-VIOLATED: in the domain, the text does not parse to the tree'), ans[3][1]]
+    return [ptoks, ptree, lexed, ttree]
 
 
 def shrink_candidates(case):
